@@ -27,6 +27,8 @@ LEVEL_TEXT = ("General theorems over the real-number instance of the model: all 
               "argument checks, object store) to geomdl is the sampled correspondence of this check; cos/sin are inputs.  The cached "
               "`evalpts` of containers is not part of the model: it is checked by the oracle only.")
 LEVEL_NOTE = "rotation angle enters only through c = cos, s = sin; the theorems hold for all c, s (a rotation when c^2 + s^2 = 1)"
+# functions of the numerical core this property rests on that are also tied by the translator (tie theorems: Proofs/GenTie*.v, restated in Props/)
+TRANSLATED = ["linalg.point_translate", "linalg.vector_generate"]
 TECHNIQUE = "Coq proofs (linear-functional characterisation of the evaluators' accumulation loops, homogeneous lifting, store invariants) + exact Fraction oracles"
 
 ANGLES = [30.0, 45.0, 90.0, 60.0, -120.0, 10.5, 180.0, 270.0, -33.0, 1.0]
